@@ -67,14 +67,15 @@ type rop struct {
 }
 
 type rcase struct {
-	Kind    string   `json:"kind"` // chain | tree
-	N       int      `json:"n"`
-	DagSeed uint64   `json:"dagseed"`
-	Local   uint64   `json:"local"` // bit i: block i is in the local store
-	GP      bool     `json:"gp"`    // gate before ExecuteTask
-	GH      bool     `json:"gh"`    // gate inside the block hook and the local store read
-	Ops     []rop    `json:"ops"`
-	Tags    []string `json:"tags,omitempty"`
+	Kind    string    `json:"kind"` // chain | tree
+	N       int       `json:"n"`
+	DagSeed uint64    `json:"dagseed"`
+	Local   uint64    `json:"local"` // bit i: block i is in the local store
+	GP      bool      `json:"gp"`    // gate before ExecuteTask
+	GH      bool      `json:"gh"`    // gate inside the block hook and the local store read
+	Ops     []rop     `json:"ops"`
+	Pair    *pairSpec `json:"pair,omitempty"` // two-request family (pair.go); the fields above are unused then
+	Tags    []string  `json:"tags,omitempty"`
 }
 
 func (c *rcase) dag() *dag.DAG {
@@ -738,6 +739,7 @@ func run(c *drv.Ctx) error {
 		"ReconciledLoader + traverser + task queue; scripts of response chunks (partial / success / failure status, hook error, wrong link), " +
 		"context cancel, CancelRequest, pause, unpause, send failure, gate releases (before ExecuteTask, in the block hook, in the local store read) " +
 		"and channel reads, each applied at a parked point; every script ends by draining, then cancelling the context, then draining; " +
+		"every 8th generated case is a two-request case (A paused or re-queued, B running online, one message with a status for each, either order), two traces; " +
 		"non-trivial = the script contains a cancel, a terminal status, a pause or a hook error; distinct = distinct terms"
 	var cases []rcase
 	var kinds []string
@@ -755,15 +757,42 @@ func run(c *drv.Ctx) error {
 			}
 			cases, kinds = append(cases, rc), append(kinds, "corpus")
 		}
-		n := c.Count(160, 3000)
+		n := c.Count(144, 3000)
 		// streams of adjacent seeds of internal/rng are shifts of one another: decorrelate through one Fork
 		r := c.R.Fork()
 		for i := 0; i < n; i++ {
+			if i%8 == 7 {
+				cases, kinds = append(cases, genPair(r.Fork())), append(kinds, "random")
+				continue
+			}
 			cases, kinds = append(cases, genCase(r.Fork())), append(kinds, "random")
 		}
 	}
 	retried := 0
 	for i, rc := range cases {
+		if rc.Pair != nil {
+			pr := runPair(*rc.Pair)
+			if pr.hung {
+				time.Sleep(200 * time.Millisecond)
+				pr = runPair(*rc.Pair)
+				retried++
+			}
+			tags := []string{"kind:" + kinds[i], "pair", "pair-a-" + rc.Pair.AMode, "pair-sta-" + rc.Pair.StA, "pair-stb-" + rc.Pair.StB}
+			if rc.Pair.AFirst {
+				tags = append(tags, "pair-a-first")
+			}
+			rc.Tags = tags
+			for _, q := range pr.reqs {
+				idx := w.Add(q.term(), rc, true, tags...)
+				if pr.hung {
+					w.Violation(idx, "the goroutines of the request manager never parked (10 s, twice): livelock", "reqlife-never-parked")
+				}
+				if pr.goViol != "" && q == pr.reqs[1] {
+					w.Violation(idx, pr.goViol, "reqlife-not-closed")
+				}
+			}
+			continue
+		}
 		res := runCase(rc)
 		if res.hung {
 			time.Sleep(200 * time.Millisecond)
